@@ -9,9 +9,9 @@ From C17 Require Import Sem Progs Static.
    FutureImpl::m_mutex protects m_ref_count, m_is_set, m_value *)
 Definition gv (x : nat) : option nat :=
   match x with
-  | 0 => Some M | 1 => Some TM | 4 => Some PM | 8 => Some FM | 9 => Some FM | 10 => Some FM | _ => None
+  | 0 => Some M | 1 => Some TM | 4 => Some PM | 8 => Some FM | 9 => Some FM | 10 => Some FM | 16 => Some PLM | 17 => Some TMA | 18 => Some TMB | _ => None
   end.
-Definition gq (q : nat) : option nat := match q with 0 => Some M | 2 => Some IM | _ => None end.
+Definition gq (q : nat) : option nat := match q with 0 => Some M | 2 => Some IM | 16 => Some PLM | _ => None end.
 
 Definition n_ := mkA [] false.
 Definition t_ := mkA [TM] false.
@@ -47,12 +47,15 @@ Definition An : annot := fun id =>
   | 13 => [ n_; t_; t_; n_; n_; m_; m_; mc; nc; n_; m_; m_; n_; n_; m_; m_; m_; m_; m_; n_ ]
   | 14 => [ n_; t_; t_; t_; t_; t_; t_; n_; p_; p_; n_; n_; t_; t_; n_; n_; n_; n_; t_; t_; n_ ]
   | 15 => [ n_; t_; t_; n_; n_; n_; p_; p_; p_; p_; p_; n_; p_; n_; n_; p_; n_ ]
+  | 16 => [ (mkA [] false); (mkA [TMA] false); (mkA [TMA] false); (mkA [TMA] false); (mkA [TMA] false); (mkA [TMA] false); (mkA [TMA] false); (mkA [] false); (mkA [TMB] false); (mkA [TMB] false); (mkA [TMB] false); (mkA [TMB] false); (mkA [TMB] false); (mkA [TMB] false); (mkA [] false); (mkA [] false); (mkA [] false); (mkA [PLM] false); (mkA [PLM] false); (mkA [PLM] false); (mkA [PLM] false); (mkA [] false); (mkA [] false); (mkA [PLM] false); (mkA [PLM] false); (mkA [PLM] false); (mkA [] false); (mkA [TMB] false); (mkA [TMB] false); (mkA [] false); (mkA [] false); (mkA [] false); (mkA [] false); (mkA [TMB] false); (mkA [TMB] false); (mkA [] false); (mkA [TMA] false); (mkA [TMA] false); (mkA [] false); (mkA [] false); (mkA [] false); (mkA [] false); (mkA [TMA] false); (mkA [TMA] false); (mkA [] false) ]
+  | 17 => [ (mkA [] false); (mkA [TMA] false); (mkA [TMA] false); (mkA [] false); (mkA [] false); (mkA [PLM] false); (mkA [PLM] false); (mkA [PLM] true); (mkA [] true); (mkA [] false); (mkA [PLM] false); (mkA [PLM] false); (mkA [PLM] false); (mkA [PLM] false); (mkA [PLM] false); (mkA [] false) ]
+  | 18 => [ (mkA [] false); (mkA [TMB] false); (mkA [TMB] false); (mkA [] false); (mkA [] false); (mkA [PLM] false); (mkA [PLM] false); (mkA [PLM] true); (mkA [] true); (mkA [] false); (mkA [PLM] false); (mkA [PLM] false); (mkA [PLM] false); (mkA [PLM] false); (mkA [PLM] false); (mkA [] false) ]
   | _ => []
   end.
 
 Lemma check_all : forall id, check_prog gv gq (P id) (An id) = true.
 Proof.
-  intros id. do 16 (destruct id as [|id]; [vm_compute; reflexivity|]). reflexivity.
+  intros id. do 19 (destruct id as [|id]; [vm_compute; reflexivity|]). reflexivity.
 Qed.
 
 (* the pre-fix code does not pass: Thread::Join wrote m_running without Thread::m_mutex *)
@@ -67,7 +70,8 @@ Inductive initial : state -> Prop :=
 | init_fc g : initial (init_fut_copy g)
 | init_s lims rs k : initial (init_ss lims rs k)
 | init_er lims rs : initial (init_execre lims rs)
-| init_p : initial init_periodic.
+| init_p : initial init_periodic
+| init_pl n : initial (init_pool n).
 
 Lemma initial_inv s0 : initial s0 -> Inv P An s0 /\ fault s0 = None.
 Proof.
@@ -85,4 +89,5 @@ Proof.
   - destruct t as [|[|i]]; cbn; auto.
     match goal with |- context [if ?c then _ else _] => destruct c end; cbn; auto.
   - destruct t as [|[|i]]; cbn; auto.
+  - destruct t as [|[|[|i]]]; cbn; auto.
 Qed.
